@@ -178,6 +178,9 @@ def base_archives():
                                        pax_rec(b"GNU.sparse.name", b"s01"), pax_rec(b"GNU.sparse.map", b"0,512,4096,512")])
                 + file_entry(b"ignored", b"d" * 1024) + END))
     out.append(("sparse10", sparse10_entry(b"s10", sparse10_map([(0, 512), (4096, 512)]), b"e" * 1024, 8192) + END))
+    # xattr keys / names with bytes >= 0x80 (signed char arithmetic in hash functions, ctype lookups)
+    out.append(("paxhi", pax_entry([pax_rec(b"SCHILY.xattr.user.\xff\x80", b"v\xff"), pax_rec(b"LIBARCHIVE.xattr.user.%ff%80a", b64(b"\xff")),
+                                    pax_rec(b"path", b"n\xc3\xa4me\xff")]) + file_entry(b"x", b"abc") + END))
     out.append(("unknown", Hdr(b"u", b"Z", 5).bytes() + pad512(b"12345") + file_entry(b"after", b"z") + END))
     return out
 
@@ -247,7 +250,8 @@ PAX_KEYS = [b"uid", b"gid", b"path", b"size", b"linkpath", b"mtime", b"GNU.spars
             b"GNU.sparse.realsize", b"GNU.sparse.major", b"GNU.sparse.minor", b"SCHILY.xattr.user.k", b"SCHILY.xattr.",
             b"LIBARCHIVE.xattr.user.k", b"LIBARCHIVE.xattr.%75ser.%6b", b"LIBARCHIVE.xattr.a%", b"LIBARCHIVE.xattr.a%4",
             b"LIBARCHIVE.xattr.a%00b", b"LIBARCHIVE.xattr.%zz%41", b"GNU.sparse.map", b"GNU.sparse.offset",
-            b"GNU.sparse.numbytes", b"GNU.sparse.numblocks", b"atime", b"comment", b"", b"SCHILY.xattr", b"uid2", b"u"]
+            b"GNU.sparse.numbytes", b"GNU.sparse.numblocks", b"atime", b"comment", b"", b"SCHILY.xattr", b"uid2", b"u",
+            b"SCHILY.xattr.user.\xff\x80", b"LIBARCHIVE.xattr.user.%ff%80"]
 NUM_TXT = [b"0", b"1", b"-1", b"+1", b"", b" 1", b"1 ", b"1.5", b"abc", b"18446744073709551615", b"18446744073709551616",
            b"1844674407370955161", b"1844674407370955160", b"9223372036854775807", b"9223372036854775806",
            b"-9223372036854775808", b"-9223372036854775806", b"99999999999999999999999999", b"007", b"1\0002", b"4294967296"]
@@ -332,12 +336,12 @@ def size_limit_cases():
                 if short:
                     body = body[:len(body) // 2]
                 out.append(Hdr(b"X", typ, sz, "gnu").bytes() + pad512(body) + file_entry(b"f", b"abc") + (b"" if short else END))
-    # PAX records of exactly limit-1 / limit / limit+1 / 2*limit bytes made of many short records (no long name involved)
+    # PAX records of exactly limit-1 / limit / limit+1 / 2*limit bytes made of several records (no long name involved)
     for sz in (LIMIT - 1, LIMIT, LIMIT + 1, LIMIT + 512, 2 * LIMIT):
         body = b""
-        while sz - len(body) >= 200:
-            body += b"100 comment=" + b"c" * 87 + b"\n"
-        rest = sz - len(body)                       # 100 .. 199: one record of exactly `rest` bytes
+        while sz - len(body) >= 8100:
+            body += b"8000 comment=" + b"c" * (8000 - 14) + b"\n"
+        rest = sz - len(body)                       # 100 .. 8099: one record of exactly `rest` bytes
         body += str(rest).encode() + b" uid=" + b"0" * (rest - len(str(rest)) - 6 - 4) + b"1234\n"
         assert len(body) == sz
         out.append(Hdr(b"X", b"x", sz, "ustar").bytes() + pad512(body) + file_entry(b"f", b"abc") + END)
@@ -580,7 +584,7 @@ XATTR_LINES = [b"# file: ../x", b"# file: a/../../b", b"# file: ", b"# file:", b
                b"user.a=0s!!!!", b"user.a=0", b"user.a=\"", b"user.a=\"\"", b"user.a=\"\\", b"user.a=\"\\\"", b"user.a=\\", b"user.a=\\7", b"user.a=\\777", b"user.a=\\1234",
                b"user.a=\"\\1\"", b"user.a=\"\\12\"", b"user.a=a\\", b"user.a=\"a\\\"", b"bogus.a=b", b"user.=b", b"user=b", b"user.a=b=c", b"# comment = with equals",
                b"user.a=" + b"x" * 70000, b"user.a=0x" + b"ab" * 40000, b"user.a=0s" + b"QUJD" * 20000, b"user.a=\0b", b"user.a=b\r", b"   user.a=b   ", b"\xff\xfe=\xff",
-               b"user.a=\"unterminated", b"user.a=un\"balanced"]
+               b"user.a=\"unterminated", b"user.a=un\"balanced", b"user.\xff=v", b"user.\x80\xfe\xc3\xa4=0x00", b"trusted.\xe2\x82\xac=\xff"]
 
 
 def text_mutants(rnd, base, lines, n):
